@@ -14,10 +14,10 @@ func init() {
 	register(&Spec{
 		ID:          "C17",
 		Loads:       []LoadSpec{{Patterns: []string{"./lnwallet", "./lnwallet/chancloser", "./peer"}}},
-		Explanation: "Decides that proposal and completion derive the closing transaction from the same inputs (same balance computation, dust limits, scripts and forwarded options), that the two halves of the transaction builder are each other's mirror image (own balance against own dust limit, own script), that the final balances credit the dangling commit fee and the anchors to the opener and charge the closing fee to the payer and fail when negative, that completion marks the channel closed and returns only after the script engine accepted the witness built from (our key, our sig, their key, their sig) against the funding output, and that the legacy negotiation calls the compromise function with (ideal, last sent, remote) in that order, the compromise function moves towards the remote offer in every order region, a proposal above the fee cap is never signed by the opener and completion uses our stored signature for exactly the fee the peer proposed; for the RBF flow that the terms announced in closing_complete / closing_sig (fee, scripts, lock time) are the terms signed, that the closee omits the closer's output in both halves exactly when the selected signature is the closee_output_only one and answers in the matching field, that a refused event leaves the shared close terms unchanged, that the balances handed to the state machine by package peer carry the opener's credit of CoopCloseBalance, and that the legacy closer's dust predicates are the negation of the builder's keep condition on the credited balance.",
+		Explanation: "Decides that proposal and completion derive the closing transaction from the same inputs (same balance computation, dust limits, scripts and forwarded options), that the two halves of the transaction builder are each other's mirror image (own balance against own dust limit, own script), that the final balances credit the dangling commit fee and the anchors to the opener and charge the closing fee to the payer and fail when negative, that completion marks the channel closed and returns only after the script engine accepted the witness built from (our key, our sig, their key, their sig) against the funding output, and that the legacy negotiation calls the compromise function with (ideal, last sent, remote) in that order, the compromise function moves towards the remote offer in every order region, a proposal above the fee cap is never signed by the opener and completion uses our stored signature for exactly the fee the peer proposed; for the RBF flow that the terms announced in closing_complete / closing_sig (fee, scripts, lock time) are the terms signed, that the closee omits the closer's output in both halves exactly when the selected signature is the closee_output_only one and answers in the matching field, that a refused event leaves the shared close terms unchanged, that the balances handed to the state machine by package peer carry the opener's credit of CoopCloseBalance, that the legacy closer's dust predicates are the negation of the builder's keep condition on the credited balance for the channel's dust limits, that every dust decision of the RBF flow (the predicates of the close terms, the outputs the fee is priced on, the labels of closing_complete) and the builder under the script-dust-limits option, which all three RBF states place, use the dust limit of the judged party's own delivery script, that every fee estimate prices the type of the channel being closed and the outputs derived for the transaction, and that the legacy closer enters the negotiation state before it replays a stashed offer or makes its first one.",
 		NotDecided: []string{
 			"byte-identity of the two sides' transactions (only that each side feeds the builder the mirrored inputs)", "the numeric termination bound of the negotiation",
-			"the RBF cooperative close state machine beyond the agreement of the options, scripts, fee and announced terms between the signing and the completing half of each flow, the closee's choice of the transaction version, the restoration of the shared terms and the balances it is handed", "whether the field the closer puts its own signature into (closer_output_only / closee_output_only / both) matches the outputs of the transaction it signed (decided from the script's dust limit there, from the channel dust limits in the builder)", "signature validity (delegated to the script engine call whose dominance is decided)",
+			"the RBF cooperative close state machine beyond the agreement of the options, scripts, fee and announced terms between the signing and the completing half of each flow, the closee's choice of the transaction version, the restoration of the shared terms and the balances it is handed", "signature validity (delegated to the script engine call whose dominance is decided)",
 		},
 		Assumptions: commonAssumptions,
 		Engines:     "MIRROR, ROLE, TABLE, PATH, GUARD",
@@ -88,11 +88,12 @@ func runC17(r *an.Run) {
 	lc := lw + "LightningChannel."
 
 	r.Obl("proposal-and-completion-same-inputs", "ROLE",
-		"CreateCloseProposal and CompleteCooperativeClose both call CoopCloseBalance(chan type, is-initiator, the proposed fee, local commitment's local balance, its remote balance, its commit fee, custom payer) and CreateCooperativeCloseTx(funding input, local dust limit, remote dust limit, the two computed balances in order, local script, remote script, options), and forward the same set of close options; the two balances handed to the builder are the results of that one call, written by nothing else, except that both functions set the remote balance to zero between the two calls exactly when the omit-remote-output option of the applied close options is set (the same statement under the same single condition in both)",
-		"a proposal signed over one transaction and a completion built from another never verifies; swapped dust limits or balances pay the wrong party", 10,
+		"CreateCloseProposal and CompleteCooperativeClose both call CoopCloseBalance(chan type, is-initiator, the proposed fee, local commitment's local balance, its remote balance, its commit fee, custom payer) and CreateCooperativeCloseTx(funding input, local dust limit, remote dust limit, the two computed balances in order, local script, remote script, options), and forward the same set of close options; the two dust limits are, in this order and written by nothing else, the results of the one call coopCloseDustLimits(the applied close options, local script, remote script) each function makes with the scripts it hands the builder, and coopCloseDustLimits returns the channel's configured limits (LocalChanCfg.DustLimit, RemoteChanCfg.DustLimit) exactly when the script-dust-limits option is not set and (DustLimitForSize(len(local script)), DustLimitForSize(len(remote script))) exactly when it is; the two balances handed to the builder are the results of that one call, written by nothing else, except that both functions set the remote balance to zero between the two calls exactly when the omit-remote-output option of the applied close options is set (the same statement under the same single condition in both)",
+		"a proposal signed over one transaction and a completion built from another never verifies; swapped dust limits or balances pay the wrong party; dust limits taken from another basis than the flow's (or from the other party's script) drop or keep an output the peer keeps or drops", 10,
 		func(o *an.Obl) {
 			optSets := map[string][]string{}
 			zeroings := map[string]string{}
+			c17f5DustLimitHelper(o, p)
 			for _, name := range []string{"CreateCloseProposal", "CompleteCooperativeClose"} {
 				f := p.Func(lc + name)
 				// role of parameters by type
@@ -133,11 +134,17 @@ func runC17(r *an.Run) {
 					c := tx[0].Node.(*ast.CallExpr)
 					a := f.ArgCanon(tx[0])
 					o.Site("%s: CreateCooperativeCloseTx(%s, %s, %s, %s, %s, %s, %s)", name, a[0], a[1], a[2], an.Text(c.Args[3]), an.Text(c.Args[4]), a[5], a[6])
-					want := map[int]string{0: lw + "fundingTxIn($recv.channelState)", 1: cs + "LocalChanCfg.DustLimit", 2: cs + "RemoteChanCfg.DustLimit", 5: scripts[0], 6: scripts[1]}
+					want := map[int]string{0: lw + "fundingTxIn($recv.channelState)", 5: scripts[0], 6: scripts[1]}
 					for i, w := range want {
 						if a[i] != w {
 							o.FailAt(f.ID+"#tx-arg-"+fmt.Sprint(i), tx[0].Where(), "%s passes %s as argument %d of CreateCooperativeCloseTx, expected %s", name, a[i], i, w)
 						}
+					}
+					// the dust limits (arguments 1 and 2): results of the one
+					// coopCloseDustLimits call, made for the applied options and
+					// the scripts the builder receives
+					if len(bal) == 1 {
+						c17f5DustArguments(o, f, name, tx[0], bal[0], scripts)
 					}
 					// balances are results #0 and #1 of the balance call; the
 					// remote one may only be zeroed when the remote output
